@@ -12,8 +12,31 @@ Model (lean/BreezyVerif/Model/C35.lean): the from-scratch export `expRoot`
 (git's real object ids: SHA-1 and the tree serialisation are implemented in
 the model, so model and code are compared on the actual 40-hex ids), the
 incremental export `incrRoot` (cache re-use, other-parent re-use, pointless
-commit), the import `impRoot` from an object store, the canonical form
-`canonRoot` of a round trip and the mode functions.
+commit), whole histories `runHist` (the SHA map filled revision by revision,
+with evictions), the import `impRoot` from an object store, the native form
+`nativeOfL` of a fetched tree, well-formed git trees `gitTreeOK`, the canonical
+form `canonRoot` of a round trip, the items a round trip must preserve
+(`itemsNC`, independent of the export) and the mode functions.
+Model/C35Y.lean: the file-id based model of WHICH objects
+`_tree_to_objects(tree, parents, idmap)` yields (iter_changes by file id,
+dirty directories with `find_target_path` and the upward closure, re-use of
+texts found in other parents) — `yielded`.
+
+Theorems (Props/C35.lean, all for every tree / history / store and every
+object-id function H): incr_eq_scratch, run_history_roots (induction over the
+history: every recorded root id is the from-scratch id and the SHA map stays
+correct, under the repository invariant that (file_id, revision) names one
+text — witness run_history_keys_witness), export_import_tree,
+import_export_git (ANY well-formed git tree is re-exported under its own id;
+needs no injectivity of H; witness for unsorted trees), canon_items /
+roundtrip_items (the round trip returns exactly the files, symlinks, contents,
+executable bits and non-empty directories of the original, `.git` entries
+excepted; witness for recorded unusual modes), yielded_tree_correct /
+yielded_root_eq_scratch (every tree object the file-id model yields for a dirty
+directory is the from-scratch tree object of that directory, the yielded root
+is the from-scratch root; the completeness of the yielded set is NOT proved —
+it is evaluated per case by `yield` and by the push oracle), reexport_canon,
+sorting and mode theorems.
 
 T2 per generated native history (working-tree scripts over a namespace chosen
 for git's entry order — `ab` as directory next to `ab-c`, `ab.c`, `ab0` —,
@@ -36,6 +59,25 @@ T2 per generated git history (dulwich objects: default and unusual modes,
 symlinks, nested trees, merges): fetch into a native repository; the dump of
 each imported tree against `imp`; `exp` of the imported tree (with the
 unusual modes the revision records) against the original tree id.
+  * (added in the improvement round) every revision: the objects the real
+    `_tree_to_objects(tree, parent trees, idmap)` yields — with an empty SHA map
+    and with one that knows every text of the parents — against `yield`
+    (path=id of every yielded blob and tree), and the model's own check that
+    these objects plus the parents' objects cover the revision's tree;
+  * the whole history through `hist` (the model keeps its own SHA map, the keys
+    the real map lost are evicted in the model too): every recorded root id;
+  * which branch of the incremental conversion each leaf took (`incrstat`:
+    new / other-parent re-use hit / miss / unchanged hit / miss / pointless) is
+    counted in the evidence (`incr:*`);
+  * `items`: the model's specification of what must survive against the
+    oracle's dump of the original, and the items of the canonical form against
+    the tree that really came back;
+  * git histories also: `reexp` (expRootP and expRoot . nativeOfL of the import,
+    and gitTreeOK) against the real re-export, `impn` (kind, executable flag
+    and recorded unusual mode of every imported entry).
+Names include `.git` below directories (BANNED_FILENAMES; corpus case
+banned-names.json runs first), paths go five levels deep (corpus
+deep-change.json), merges include "merge -s ours" (corpus merge-ours.json).
 T2 modes: `mode_kind`, `mode_is_executable`, stat dispatch, unusual-mode rule
 and `object_mode` against the model for a sweep of modes.
 
@@ -78,6 +120,39 @@ with a concrete history):
      (corpus/C35/moved-dir-lost-child.json);
   harmless: `sorted(dirty_dirs, reverse=True)` replaced by a sort on
   (-depth, path): stays clean.
+Improvement round (all on seed 0, /var/tmp/imp-C35C36/dev/{n,m,r}*.py):
+  N1 directory_to_tree skips `.git` only at the root — oracle (warm != scratch,
+     dangling object) + T2;
+  N2 the `change.name[1] in BANNED_FILENAMES` skip removed (an unreferenced
+     blob is sent) — T2 `exp`/`yield` only (root ids are unaffected);
+  N6 pointless commit takes the LAST parent's root tree — oracle, through the
+     new `merge-ours` family (was invisible before);
+  M11 a text re-used from another parent is sent again — T2 `yield` only;
+  M12 upward closure of the dirty directories cut after one level — oracle
+     (dangling tree) through the deep-change family (was invisible before);
+  R2 (revert of 9095241) now also breaks T2 `yield`, not only the oracle;
+  M1 became an EQUIVALENT mutant after fix 9095241 (the old directory's new
+     location is marked dirty by find_target_path): stays clean.
+Environment problems (ENOSPC, EMFILE, MemoryError ...) in a worker are
+infrastructure failures (exit 2), not violations.
+
+NEW findings of the unchanged /repo (improvement round; the check exits 1 on
+/repo until they are triaged; corpus cases banned-symlink-renamed.json and
+renamed-to-banned.json run first).  Both come from the `.git` names added to
+the generator; both families are computed from the concrete history:
+  symlink-renamed-from-banned-name   a symlink called `.git` (never exported) is renamed to a legal name without a
+      change of target: _tree_to_objects only sends a symlink's blob when its content changed, so the blob is never
+      sent and the pushed tree refers to a missing object (the missing id is the blob of such a symlink).
+      Lean: yield_incomplete_witness.
+  entry-renamed-to-banned-name       an entry is renamed TO `.git`: the change is skipped as a whole, including the
+      bookkeeping for the directory it left.  Alone in a revision: nothing is yielded, the revision re-uses its
+      parent's root tree (incremental id != from-scratch id, the file is back after push + fetch); with other
+      changes: the directory's new tree is never sent (dangling id).  Lean: recorded_root_banned_rename_witness.
+The file-id model has both repairs as variants (`Variant`: fixBanned, fixRen); `banned_name_probe` asks the code
+under test which it has and the ties (`yield`, `incrf`, `histf`) use that variant — so T2 stays exact on the code as
+found (0 mismatches, the defects are reproduced by the model) and on a repaired tree (where the path based model of
+the theorems must agree everywhere).  Repros and tested patches (breezy.git.tests: 486 OK with and without; C35
+clean in both tiers with fix-C35-banned-names-both.diff): /var/tmp/imp-C35C36/c35/.
 """
 import hashlib
 import os
@@ -94,11 +169,14 @@ THEOREMS = [
     "run_history_roots", "run_history_from", "run_history_keys_witness",
     "import_export_git", "import_export_git_unsorted_witness",
     "canon_items", "roundtrip_items", "canon_items_unusual_witness",
+    "yielded_tree_correct", "yielded_root_eq_scratch", "yield_incomplete_witness",
+    "recorded_root_banned_rename_witness",
 ]
 RULE = ("native case = one revision of a generated history (script of working-tree operations on up to 3 lanes "
         "with forks and merges), identified by the digest of its tree and parents; non-trivial = the revision has a "
         "parent and its tree has at least one directory with a represented child; git case = one commit of a generated "
-        "dulwich history; mode cases = swept modes; distinct by tree digest + parent digests")
+        "dulwich history; mode cases = swept modes (only the structured ones count as distinct non-trivial cases, the "
+        "random ones are explored but not counted); distinct by tree digest + parent digests")
 ASSUMPTIONS = [
     "sibling names in a versioned tree are unique (inventory invariant; the model's tree objects keep duplicates, dulwich's Tree is a dict)",
     "(file_id, revision) identifies one text (repository invariant; this is what makes any SHA map filled from ancestors 'correct' in the sense of cacheOK)",
@@ -212,6 +290,27 @@ def apply_step(lanes, s, root):
         for p in list(wt.unknowns()):
             if os.path.lexists(ab(p)):
                 _rm(ab(p))
+    elif op == "merge-ours":
+        # a merge that takes nothing from the other side ("-s ours"): the tree stays the first parent's
+        other = lanes[s[2]]
+        from breezy.workingtree import PointlessMerge
+        try:
+            wt.merge_from_branch(other.wt.branch, force=True)
+        except PointlessMerge:
+            pass
+        with wt.lock_tree_write():
+            paths = set(p for p, _ie in wt.iter_entries_by_dir() if p)
+            paths.update(p for p, _ie in wt.basis_tree().iter_entries_by_dir() if p)
+            if paths:
+                wt.revert(sorted(paths), backups=False)
+        from breezy.conflicts import ConflictList
+        try:
+            wt.set_conflicts(ConflictList())
+        except Exception:
+            wt.set_conflicts([])
+        for p in list(wt.unknowns()):
+            if os.path.lexists(ab(p)):
+                _rm(ab(p))
     elif op == "commit":
         n = len([1 for l in lanes.values() for _ in l.commits])
         revid = wt.commit("m %s" % s[2], rev_id=s[2].encode(), timestamp=1500000000 + 60 * n, timezone=0,
@@ -265,6 +364,11 @@ def build_history(seed_tuple, nsteps):
         if r < 0.24 and mergeable:
             src = rng.choice(mergeable)
             merged.add(lanes[src].commits[-1])
+            if rng.random() < 0.2:
+                do([0, "merge-ours", src])
+                state[0] = _mirror(lanes[0].wt)
+                commit(0)
+                continue
             do([0, "merge", src])
             state[0] = _mirror(lanes[0].wt)
             if rng.random() < 0.5:
@@ -305,14 +409,17 @@ class _StepGen:
             return [""] + sorted(p for p, k in st.items() if k == "d")
 
         def newpath(excl=None):
-            d = rng.choice(dirs())
+            ds = dirs()
+            # half of the time the deepest directory there is: changes far below the root exercise the
+            # upward closure of the dirty directories
+            d = max(ds, key=lambda q: (q.count("/") + (1 if q else 0), q)) if rng.random() < 0.5 else rng.choice(ds)
             if excl and (d == excl or d.startswith(excl + "/")):
                 return None
             n = rng.choice(NAMES)
             if d and rng.random() < 0.07:
                 n = BANNED
             p = n if not d else d + "/" + n
-            return None if p in st or p.count("/") > 2 else p
+            return None if p in st or p.count("/") > 3 else p
 
         def under(p):
             return [q for q in sorted(st) if q == p or q.startswith(p + "/")]
@@ -399,7 +506,7 @@ def tree_nodes(tree, unusual=None):
             if ie.kind == "directory":
                 ch = {}
                 index[path] = ch
-                node = ("D", ch)
+                node = ("D", ch, ie.file_id)
             elif ie.kind == "file":
                 node = ("F", ie.file_id, ie.revision, tree.get_file_text(path), bool(ie.executable), um)
             elif ie.kind == "symlink":
@@ -428,6 +535,45 @@ def enc_node(n):
 
 def enc_tree(ch):
     return ",".join(enc_children(ch))
+
+
+def enc_fchildren(ch):
+    toks = [str(len(ch))]
+    for name in sorted(ch):
+        n = ch[name]
+        toks.append(hx(name))
+        if n[0] == "F":
+            toks += ["F", hx(n[1]), hx(n[2]), hx(n[3]), "T" if n[4] else "F"]
+        elif n[0] == "L":
+            toks += ["L", hx(n[1]), hx(n[2]), hx(n[3])]
+        else:
+            toks += ["D", hx(n[2])] + enc_fchildren(n[1])
+    return toks
+
+
+def enc_ftree(root_fid, ch):
+    """the file-id form of a tree (directories carry their file ids) for the driver's `yield`"""
+    return ",".join([hx(root_fid)] + enc_fchildren(ch))
+
+
+def leaves_payload(ch, out=None):
+    out = {} if out is None else out
+    for n in ch.values():
+        if n[0] == "D":
+            leaves_payload(n[1], out)
+        else:
+            out[(n[1], n[2])] = n[3]
+    return out
+
+
+def real_yield(tree, parent_trees, idmap):
+    from breezy.git.object_store import _tree_to_objects
+    from breezy.git.mapping import default_mapping
+    out = []
+    with tree.lock_read():
+        for path, obj, _key in _tree_to_objects(tree, parent_trees, idmap, {}, default_mapping.BZR_DUMMY_FILE):
+            out.append("%s=%s" % (enc_path(path), obj.id.decode()))
+    return ";".join(sorted(out)) or "-"
 
 
 def enc_path(p):
@@ -554,7 +700,7 @@ def _as_bytes(x):
     return x if isinstance(x, bytes) else x.encode("ascii")
 
 
-def warm_export(repo, order, trees, nodes, evict_rng=None):
+def warm_export(repo, order, trees, nodes, evict_rng=None, rootfid=None, variant="00"):
     """drive BazaarObjectStore revision by revision.  Returns
     {revid: (root_sha, model_line, evicted keys)}"""
     from breezy.git.cache import DictBzrGitCache
@@ -605,7 +751,12 @@ def warm_export(repo, order, trees, nodes, evict_rng=None):
                 store.commit_write_group()
             root = commit_tree_sha(idmap, csha).decode()
             line = "incr %s %s %s %s %s" % (";".join(centries) or "-", btree, bsha, others, enc_tree(nodes[revid]))
-            res[revid] = (root, line, evicted)
+            fline = "incrf %s %s %s %s %s %s" % (
+                variant, ";".join(centries) or "-",
+                enc_ftree(rootfid[present[0]], nodes[present[0]]) if present else "~", bsha,
+                "|".join(enc_ftree(rootfid[p], nodes[p]) for p in present[1:]) or "-",
+                enc_ftree(rootfid[revid], nodes[revid]))
+            res[revid] = (root, line, evicted, fline)
     return res
 
 
@@ -683,9 +834,53 @@ def env_error(e):
 # --------------------------------------------------------------------------
 # one native history (runs in a worker process)
 
+def leaves_by_fid(ch, pre=b"", out=None):
+    """{file id: (path, name, node)} of the files and symlinks of a tree"""
+    out = {} if out is None else out
+    for name, n in ch.items():
+        p = name if not pre else pre + b"/" + name
+        if n[0] == "D":
+            leaves_by_fid(n[1], p, out)
+        else:
+            out[n[1]] = (p, name, n)
+    return out
+
+
+def entries_by_fid(ch, out=None):
+    """{file id: name} of every entry (directories included)"""
+    out = {} if out is None else out
+    for name, n in ch.items():
+        if n[0] == "D":
+            out[n[2]] = name
+            entries_by_fid(n[1], out)
+        else:
+            out[n[1]] = name
+    return out
+
+
+def banned_origin_blobs(order, parents, nodes):
+    """ids of the blobs of symlinks that got a legal name by a rename from `.git` without a change of target
+    (the concrete shape of the finding family symlink-renamed-from-banned-name), over a whole history"""
+    from dulwich.objects import Blob
+    out = set()
+    for r in order:
+        if not parents[r]:
+            continue
+        old = leaves_by_fid(nodes[parents[r][0]])
+        for fid, (_p, name, n) in leaves_by_fid(nodes[r]).items():
+            if n[0] == "L" and name != b".git" and fid in old:
+                _p0, name0, n0 = old[fid]
+                if name0 == b".git" and n0[0] == "L" and n0[3] == n[3]:
+                    out.add(Blob.from_string(n[3]).id)
+    return out
+
+
 def native_case(arg):
-    seed_tuple, nsteps, script = arg
-    R = dict(cases=[], lines=[], impls=[], viol=[], counts={}, seed=list(seed_tuple), stat_lines=[])
+    seed_tuple, nsteps, script = arg[:3]
+    variant = arg[3] if len(arg) > 3 and isinstance(arg[3], str) else "00"
+    code_repaired = variant == "11"
+    R = dict(cases=[], lines=[], impls=[], viol=[], counts={}, seed=list(seed_tuple), stat_lines=[],
+             ycases=[], ylines=[], yimpls=[], custom=[])
 
     def count(k, n=1):
         R["counts"][k] = R["counts"].get(k, 0) + n
@@ -738,21 +933,74 @@ def native_case(arg):
             R["cases"].append((case, dict(tree=digest(tline), parents=[digest(enc_tree(nodes[p])) for p in parents[r]]), nontriv))
             R["lines"].append("exp " + tline)
             R["impls"].append(impl)
+        # ---- the objects yielded against the parents (dirty-directory bookkeeping) -------------
+        from breezy.git.cache import DictGitShaMap
+        from dulwich.objects import Blob
+        rootfid = {r: trees[r].path2id("") for r in order}
+        for r in order:
+            ps = parents[r]
+            ptrees = [trees[p] for p in ps]
+            btree = enc_ftree(rootfid[ps[0]], nodes[ps[0]]) if ps else "~"
+            others = "|".join(enc_ftree(rootfid[p], nodes[p]) for p in ps[1:]) or "-"
+            ftree = enc_ftree(rootfid[r], nodes[r])
+            known = {}
+            for p in ps:
+                known.update(leaves_payload(nodes[p]))
+            for tag in ("cold", "full"):
+                idmap = DictGitShaMap()
+                centries = []
+                if tag == "full":
+                    for (fid, r2), payload in sorted(known.items()):
+                        sha = Blob.from_string(payload).id
+                        idmap._by_fileid.setdefault(r2, {})[fid] = sha
+                        centries.append("%s:%s:%s" % (hx(fid), hx(r2), sha.decode()))
+                impl = real_yield(trees[r], ptrees, idmap)
+                case = dict(base_case, rev=r.decode(), what="yield-" + tag)
+                R["ycases"].append(case)
+                R["ylines"].append("yield %s %s %s %s %s" % (variant, ";".join(centries) or "-", btree, others, ftree))
+                R["yimpls"].append(impl)
+                count("yielded-objects", 0 if impl == "-" else impl.count(";") + 1)
+                if impl == "-":
+                    count("yield-nothing")
         # ---- warm (index map) and evicted dict map ------------------------
         with repo.lock_write():
-            warm = warm_export(repo, order, trees, nodes)
-            evic = warm_export(repo, order, trees, nodes, evict_rng=rng)
+            warm = warm_export(repo, order, trees, nodes, rootfid=rootfid, variant=variant)
+            evic = warm_export(repo, order, trees, nodes, evict_rng=rng, rootfid=rootfid, variant=variant)
+
+        def to_banned(r):
+            """did revision r give an entry that had a legal name in its first parent the name `.git`?"""
+            if not parents[r]:
+                return False
+            old = entries_by_fid(nodes[parents[r][0]])
+            return any(name == b".git" and fid in old and old[fid] != b".git"
+                       for fid, name in entries_by_fid(nodes[r]).items())
+
+        def stale_family(r):
+            """the concrete shape of finding entry-renamed-to-banned-name: r, or a first-parent ancestor whose git
+            tree r still has, renamed an entry to `.git` (the change is skipped, the directory it left keeps its old
+            tree)"""
+            q = r
+            while True:
+                if to_banned(q):
+                    return "entry-renamed-to-banned-name"
+                if not parents[q] or scratch[parents[q][0]][""] != scratch[q][""]:
+                    return None
+                q = parents[q][0]
+
         for r in order:
             for tag, res in (("warm", warm), ("evict", evic)):
-                root, line, _ev = res[r]
+                root, line, _ev, fline = res[r]
                 case = dict(base_case, rev=r.decode(), what=tag)
-                R["cases"].append((case, None, False))
-                R["lines"].append(line)
-                R["impls"].append(root)
+                # reply = `<recorded root of the code variant> <path based incrRoot>`: the first must be the real
+                # root; the second (what the theorems are about) too, except on the finding family
+                R["custom"].append(("incrf", case, fline, root, None if code_repaired else stale_family(r)))
                 R["stat_lines"].append("incrstat" + line[4:])
                 if root != scratch[r][""].decode():
+                    fam = stale_family(r)
+                    if fam:
+                        count("family:" + fam)
                     viol(case, "revision %s: root tree id %s through the %s SHA map, %s from scratch" % (
-                        r.decode(), root, tag, scratch[r][""].decode()))
+                        r.decode(), root, tag, scratch[r][""].decode()), family=fam)
         # the whole history through the model's `runHist` (SHA map kept by the model itself; the keys the
         # real map lost are evicted in the model too): every recorded root id
         pos = {r: i for i, r in enumerate(order)}
@@ -761,10 +1009,10 @@ def native_case(arg):
             for r in order:
                 ps = ".".join(str(pos[q]) for q in repo_parent_ids[r] if q in pos) or "-"
                 ev = ".".join("%s:%s" % (hx(f), hx(v)) for f, v in res[r][2]) or "-"
-                revs.append("%s!%s!%s" % (ps, ev, enc_tree(nodes[r])))
-            R["cases"].append((dict(base_case, what="hist-" + tag), None, False))
-            R["lines"].append("hist " + "|".join(revs))
-            R["impls"].append(";".join(res[r][0] for r in order) or "-")
+                revs.append("%s!%s!%s" % (ps, ev, enc_ftree(rootfid[r], nodes[r])))
+            fam_any = None if code_repaired else next((f for f in (stale_family(r) for r in order) if f), None)
+            R["custom"].append(("histf", dict(base_case, what="hist-" + tag), "histf %s %s" % (variant, "|".join(revs)),
+                                ";".join(res[r][0] for r in order) or "-", fam_any))
             count("hist-evicted-keys", sum(len(res[r][2]) for r in order))
         # ---- push in two stages --------------------------------------------
         from breezy.repository import InterRepository
@@ -778,6 +1026,7 @@ def native_case(arg):
         ostore = grepo._git.object_store
         count("pushed", len(revidmap))
         pushed_ok = True
+        banned_origin = banned_origin_blobs(order, parents, nodes)
         for r in order:
             case = dict(base_case, rev=r.decode(), what="push")
             if r not in revidmap:
@@ -792,7 +1041,11 @@ def native_case(arg):
                 objs = {}
                 git_closure(ostore, c.tree, objs)
             except KeyError as e:
-                viol(case, "object %s reachable from the pushed revision %s is missing in the target repository" % (e, r.decode()))
+                fam = "symlink-renamed-from-banned-name" if e.args and e.args[0] in banned_origin else stale_family(r)
+                if fam:
+                    count("family:" + fam)
+                viol(case, "object %s reachable from the pushed revision %s is missing in the target repository" % (e, r.decode()),
+                     family=fam)
                 pushed_ok = False
                 continue
             # the import model on what is really in the git repository
@@ -831,19 +1084,27 @@ def native_case(arg):
                 continue
             case = dict(base_case, rev=r.decode(), what="roundtrip")
             d = show_dump(model_dump_of(back[r]))
-            R["cases"].append((case, None, False))
-            R["lines"].append("rt " + enc_tree(nodes[r]))
-            R["impls"].append("%s %s" % (d, d))
             want = plain_dump(nodes[r])
             got = plain_dump_all(back[r])
-            # the model's specification of what must survive (itemsNC) against the oracle's own, and the
-            # items of the model's canonical form against the tree that really came back
-            R["cases"].append((dict(case, what="items"), None, False))
-            R["lines"].append("items " + enc_tree(nodes[r]))
-            R["impls"].append("%s %s" % (items_str(want), items_str(got)))
+            if not code_repaired and stale_family(r):
+                # the code as found pushed a stale tree for this revision (finding entry-renamed-to-banned-name,
+                # reported by the oracle below): what comes back is not the model's canonical form
+                count("roundtrip-t2-skipped:entry-renamed-to-banned-name")
+            else:
+                R["cases"].append((case, None, False))
+                R["lines"].append("rt " + enc_tree(nodes[r]))
+                R["impls"].append("%s %s" % (d, d))
+                # the model's specification of what must survive (itemsNC) against the oracle's own, and the
+                # items of the model's canonical form against the tree that really came back
+                R["cases"].append((dict(case, what="items"), None, False))
+                R["lines"].append("items " + enc_tree(nodes[r]))
+                R["impls"].append("%s %s" % (items_str(want), items_str(got)))
             if want != got:
                 diff = sorted(set(want.items()) ^ set(got.items()), key=repr)[:4]
-                viol(case, "revision %s after push + fetch differs from the original: %r" % (r.decode(), diff))
+                fam = stale_family(r)
+                if fam:
+                    count("family:" + fam)
+                viol(case, "revision %s after push + fetch differs from the original: %r" % (r.decode(), diff), family=fam)
         count("roundtrips", len(back))
     except Exception as e:
         import traceback
@@ -1121,11 +1382,14 @@ def mode_cases(ctx):
 
 # --------------------------------------------------------------------------
 
-def _absorb(ctx, R, allc, alll, alli, stats=None):
+def _absorb(ctx, R, allc, alll, alli, stats=None, ylds=None):
     if R.get("infra"):
         raise env.InfraError("C35 worker: %s" % R["infra"])
     if stats is not None:
         stats.extend(R.get("stat_lines", []))
+    if ylds is not None:
+        ylds.extend(("yield", c, l, i, None) for c, l, i in zip(R.get("ycases", []), R.get("ylines", []), R.get("yimpls", [])))
+        ylds.extend(R.get("custom", []))
     for k, n in R["counts"].items():
         ctx.count(k, n)
     if R.get("error"):
@@ -1168,22 +1432,69 @@ def unusual_mode_probe():
         return "raises %s: %s" % (type(e).__name__, str(e)[:120])
 
 
+def _compare_custom(ctx, ylds):
+    """ties whose reply has two parts.  `yield`: the list of yielded objects is compared with the real generator's;
+    the model's own verdict on whether yielded + parents' objects cover the tree is recorded (the push oracle is what
+    reports a dangling object).  `incrf` / `histf`: `<roots by the file-id model of the code variant> <roots by the
+    path based model the theorems are about>`: the first must be the real ids; the second too, except on a revision
+    of the finding family entry-renamed-to-banned-name of the code as found (`fam`)."""
+    for (kind, case, line, impl, fam), rep in zip(ylds, ctx.model([x[2] for x in ylds])):
+        ctx.traces += 1
+        first, _, second = rep.rpartition(" ")
+        if first != impl:
+            ctx.mismatch(case, impl, first, line=line)
+        if kind == "yield":
+            ctx.count("yield:model-says-" + ("complete" if second == "T" else "INCOMPLETE"))
+        elif second != impl:
+            if fam is None:
+                ctx.mismatch(case, impl, second, line=line, tie="T2 path-based model")
+            else:
+                ctx.count("incr:path-model-differs:" + fam)
+
+
+def banned_name_probe():
+    """which of the two repairs about entries called `.git` does the code under test have?  Returns the model
+    variant `<fixBanned><fixRen>` the ties use (the oracle does not depend on it):
+    fixBanned — the blob of a symlink renamed from `.git` to a legal name is sent;
+    fixRen    — renaming an entry to `.git` rebuilds the directory it left."""
+    from breezy.git.cache import DictGitShaMap
+    script = [[0, "mkdir", "gg"], [0, "write", "gg/zz", "780a", False], [0, "symlink", "gg/.git", "../x"],
+              [0, "write", "ff", "790a", False], [0, "commit", "p1"], [0, "rename", "gg/.git", "gg/ll"], [0, "commit", "p2"],
+              [0, "rename", "ff", "gg/.git"], [0, "commit", "p3"]]
+    lanes, root = replay_history(script)
+    try:
+        repo = lanes[0].wt.branch.repository
+        with repo.lock_read():
+            t1, t2, t3 = (repo.revision_tree(r) for r in (b"p1", b"p2", b"p3"))
+            a = (enc_path("gg/ll") + "=") in real_yield(t2, [t1], DictGitShaMap())
+            b = real_yield(t3, [t2], DictGitShaMap()) != "-"
+        return ("1" if a else "0") + ("1" if b else "0")
+    finally:
+        shutil.rmtree(root, ignore_errors=True)
+
+
 def run(ctx, nnative=None, ngit=None):
     nnative = nnative or ctx.pick(8, 220)
     ngit = ngit or ctx.pick(6, 160)
     mode_cases(ctx)
     ctx.extra["unusual_mode_probe"] = unusual_mode_probe()
-    cases, lines, impls, stats = [], [], [], []
+    variant = banned_name_probe()
+    ctx.extra["code_variant_fixBanned_fixRen"] = variant
+    fix_banned = variant
+    cases, lines, impls, stats, ylds = [], [], [], [], []
     corpus = _corpus()
-    args = [(("corpus", i), 0, c["script"]) for i, c in enumerate(corpus) if "script" in c]
-    args += [((ctx.seed, "n", i), ctx.rng.choice(ctx.pick([14, 22, 34], [14, 30, 60])), None) for i in range(nnative)]
+    args = [(("corpus", i), 0, c["script"], fix_banned) for i, c in enumerate(corpus) if "script" in c]
+    args += [((ctx.seed, "n", i), ctx.rng.choice(ctx.pick([14, 22, 34], [14, 30, 60])), None, fix_banned)
+             for i in range(nnative)]
     for R in ctx.pmap(native_case, args, procs=ctx.pick(4, 8)):
-        _absorb(ctx, R, cases, lines, impls, stats)
+        _absorb(ctx, R, cases, lines, impls, stats, ylds)
     gargs = [((ctx.seed, "g", i), ctx.rng.choice([3, 5, 8]), None) for i in range(ngit)]
     for R in ctx.pmap(git_case, gargs, procs=ctx.pick(4, 8)):
         _absorb(ctx, R, cases, lines, impls)
     if lines:
         ctx.diff(cases, lines, impls)
+    if ylds and ctx.model_available:
+        _compare_custom(ctx, ylds)
     if stats and ctx.model_available:
         # which branch of the incremental conversion each leaf of each converted revision took (model's
         # view of the real SHA map at that moment): reachability of cache hit / miss / other-parent re-use
@@ -1214,14 +1525,18 @@ def replay(ctx, case):
         mode_cases(ctx)
         return dict(case=case, oracle_failures=[v["what"] for v in ctx.violations])
     if "script" in case:
-        R = native_case((tuple(case.get("history", ["replay"])), 0, case["script"]))
+        R = native_case((tuple(case.get("history", ["replay"])), 0, case["script"], banned_name_probe()))
     else:
         hist = [(ps, {bytes.fromhex(p): (m, bytes.fromhex(d)) for p, m, d in fs}) for ps, fs in case["commits"]]
         R = git_case((tuple(case.get("git_history", ["replay"])), len(hist), hist))
-    cases, lines, impls = [], [], []
-    _absorb(ctx, R, cases, lines, impls)
+    cases, lines, impls, ylds = [], [], [], []
+    _absorb(ctx, R, cases, lines, impls, None, ylds)
     outs = ctx.model(lines) if lines else []
     diffs = [dict(case={k: v for k, v in c.items() if k not in ("script", "commits")}, impl=i[:300], model=m[:300])
              for c, i, m in zip(cases, impls, outs) if i != m]
+    for (_k, c, l, i, _f), m in zip(ylds, ctx.model([x[2] for x in ylds]) if ylds else []):
+        if m.rpartition(" ")[0] != i or m.endswith(" F") or m.rpartition(" ")[2] not in ("T", i):
+            diffs.append(dict(case={k: v for k, v in c.items() if k not in ("script", "commits")}, impl=i[:300],
+                              model=m[:300]))
     return dict(case={k: v for k, v in case.items()}, lines=len(lines), model_differences=diffs[:5],
                 error=R.get("error"), oracle_failures=[v["what"] for v in ctx.violations])
